@@ -11,6 +11,8 @@ def run_pyvc(pid, tier, seed, only, verbose, setup):
     rep.trusted_base = ["pyvc symbolic executor (A9: its Python semantics)", "z3 / cvc5 (A10)",
                         "floats treated as mathematical reals (A1)"]
     setup(rep)
+    if only:
+        rep.min_obligations = 1
     runner.run_file(rep, "contracts." + pid, only=only, verbose=verbose)
     from pyvc import replay
     replay.attach_replays(rep, seed)
